@@ -57,13 +57,17 @@ def gen_stallwatch(r, tier):
             now += 200_000_000
             ops.append(f"w.cycle curve={curve} now={now}")
             ops.append("w.dev hasrpm=1")
+        # in some cases ANOTHER fan of the daemon is being analysed (the serialisation lock of the start-up analysis is held)
+        # from the stall on: regulation of this fan, its stall watch included, goes on all the same (seed C10l: the stall check
+        # was skipped while the lock was held)
+        initlock = r.chance(0.15)
         # spinning phase
         for _ in range(r.range(1, 4)):
             now += 200_000_000
             ops.append(f"w.cycle curve={curve} now={now}")
             ops.append("w.poll")
         # the fan stalls: the harness plays the device (rpm 0 unless the register exceeds the threshold)
-        ops.append("w.dev rpm=0")
+        ops.append("w.dev rpm=0" + (" initlock=1" if initlock else ""))
         if kind == "hwmon" and r.chance(0.2):
             # the driver rejects every write of the control mode from now on (manual mode cannot be re-asserted): the PWM is
             # still writable and the stalled fan still has to be pushed (seed C10j: the cycle gave up before looking at the RPM)
@@ -91,6 +95,8 @@ def gen_stallwatch(r, tier):
                     ops.append(f"w.dev pwm={foreign}")
                 now += 200_000_000
                 ops.append(f"w.cycle curve={curve} now={now}")
+        if initlock:
+            ops.append("w.dev initlock=0")
     return ops
 
 
